@@ -6,6 +6,7 @@ import re
 import cli
 from core import Property, Stream, dec_list, enc_list
 import reports_common as rc
+from se2e import LintFileE2EStream
 
 JCATS = ("bad", "deprecated", "noext", "missing", "unused", "readerr", "nocop", "nolic")
 PCATS = ("bad", "deprecated", "noext", "missing", "unused", "readerr", "noboth", "nocoponly", "noliconly")
@@ -374,7 +375,7 @@ class LintFileStream(Stream):
 
 PROPERTY = Property(
     pid="C13",
-    streams=[FormatsStream(), LintFileStream()],
+    streams=[FormatsStream(), LintFileStream(), LintFileE2EStream()],
     table_roundtrip=rc.table_roundtrip,
     assumptions=[
         "formatters are modelled as functions to (category, item) entries; wording, ordering, wrapping and the recommendations text are "
